@@ -38,11 +38,18 @@ class XonshCallMakerVisitor(PythonCallMakerVisitor):
         self.keywords: set[str] = set()
         self.soft_keywords: set[str] = set()
 
-    def lookahead_call_helper(self, node: Item, nested=True) -> tuple[str, str]:
-        name, call = self.visit(node.node if nested else node)
+    def lookahead_call_helper(self, node: Item, nested=True, wrap=True) -> tuple[str, str]:
+        target = node.node if nested else node
+        name, call = self.visit(target)
         head, tail = call.split("(", 1)
         assert tail[-1] == ")"
         tail = tail[:-1]
+        if wrap and re.search(r"self\.\w+\(", tail):
+            # an argument that is itself a call (a forced token, also behind a group) would run once, while the
+            # arguments of the lookahead / repetition / gather are built, instead of each time the target is tried:
+            # such a target becomes a rule of its own
+            rhs = target if isinstance(target, Rhs) else Rhs([Alt([NamedItem(None, target)])])
+            return f"self.{self.gen.artifical_rule_from_rhs(rhs)}", ""
         return head, tail
 
     def _call_helper(self, node: Item, nested=True):
@@ -72,7 +79,7 @@ class XonshCallMakerVisitor(PythonCallMakerVisitor):
         alt_funcs = itertools.chain.from_iterable(a.items for a in node.alts)
         args = []
         for fn in alt_funcs:
-            head, tail = self.lookahead_call_helper(fn, nested=False)
+            head, tail = self.lookahead_call_helper(fn, nested=False, wrap=False)
             if re.search(r"self\.\w+\(", tail):
                 # an argument that is itself a call (a forced token, also behind a group) would run while the
                 # argument tuple is built, i.e. before the earlier alternatives; a method passed on uncalled
